@@ -596,3 +596,82 @@ def render(tokens, r=None, style="space", comments=True):
             out.append(sep)
         out.append(t)
     return "".join(out)
+
+
+# ---------------------------------------------------------------------------------------------
+# hand-built trees (any shape reachable through Node::operator_mut / children_mut)
+# ---------------------------------------------------------------------------------------------
+PLAIN_OPS = ["RootNode", "Add", "Sub", "Neg", "Mul", "Div", "Mod", "Exp", "Eq", "Neq", "Gt", "Lt", "Geq", "Leq", "And", "Or", "Not",
+             "Assign", "AddAssign", "SubAssign", "MulAssign", "DivAssign", "ModAssign", "ExpAssign", "AndAssign", "OrAssign",
+             "Tuple", "Chain"]
+OP_ARITY = {"RootNode": 1, "Neg": 1, "Not": 1, "Tuple": None, "Chain": None}
+ASSIGN_OPS = {"Assign", "AddAssign", "SubAssign", "MulAssign", "DivAssign", "ModAssign", "ExpAssign", "AndAssign", "OrAssign"}
+
+
+def hand_arity(op):
+    if op.startswith("Const:") or op.startswith("Write:") or op.startswith("Read:"):
+        return 0
+    if op.startswith("Fn:"):
+        return 1
+    return OP_ARITY.get(op, 2)
+
+
+def rand_hand_tree(r, depth):
+    """returns (op, [children]) ; mostly arity-correct, sometimes not"""
+    k = r.random()
+    if depth <= 0 or k < 0.3:
+        k2 = r.random()
+        if k2 < 0.5:
+            op = "Const:" + r.choice(small_pool())
+        elif k2 < 0.75:
+            op = "Read:" + hexs(r.choice(["a", "b", "c", "x", "y", "q"]))
+        elif k2 < 0.85:
+            op = "Write:" + hexs(r.choice(["a", "b", "x", "q", "z"]))
+        else:
+            op = r.choice(PLAIN_OPS)
+    elif k < 0.4:
+        op = "Fn:" + hexs(r.choice(["f", "h", "len", "min", "typeof", "str::from", "nosuch"]))
+    else:
+        op = r.choice(PLAIN_OPS)
+    ar = hand_arity(op)
+    if ar is None:
+        n = r.randint(0, 3)
+    elif r.random() < 0.88:
+        n = ar
+    else:
+        n = r.randint(0, 3)
+    if depth <= 0:
+        n = min(n, 1) if ar != 0 or r.random() < 0.9 else n
+    return (op, [rand_hand_tree(r, depth - 1) for _ in range(n)])
+
+
+def hand_text(t):
+    return "(" + " ".join([t[0]] + [hand_text(c) for c in t[1]]) + ")"
+
+
+def hand_preorder(t):
+    out = []
+    for c in t[1]:
+        out.append(c[0])
+        out += hand_preorder(c)
+    return out
+
+
+def hand_has_assign(t):
+    return t[0] in ASSIGN_OPS or any(hand_has_assign(c) for c in t[1])
+
+
+def hand_bad_arity(t):
+    ar = hand_arity(t[0])
+    bad = False
+    if t[0] == "RootNode":
+        bad = False
+    elif ar is not None and len(t[1]) != ar:
+        bad = True
+    elif t[0] == "Chain" and not t[1]:
+        bad = True
+    return bad or any(hand_bad_arity(c) for c in t[1])
+
+
+def hand_roots_small(t):
+    return (t[0] != "RootNode" or len(t[1]) <= 1) and all(hand_roots_small(c) for c in t[1])
